@@ -11,13 +11,21 @@
       to identifiers; [Node.identifier_from] is the identity).  [None] and the empty string
       [''] (both occur in [_verify_identify_inputs]) are two distinguished values of [A] that
       the generated file takes as section variables [py_None] / [py_empty_str]; the theorems
-      assume that they are not vertices of the graph.
+      assume that the node arguments differ from [py_None] (and, where the Python code compares
+      a node with [''], from [py_empty_str]).
     - A [CausalGraph] that is a DAG (the only graphs on which these functions do not raise
       [TypeError]) and a [networkx.DiGraph] are both a [digraph A]: [verts] = the nodes,
       [arcs] = the directed edges.  All graph-valued operations keep [verts] unchanged.
-    - A Python [set] is a duplicate-free [list A]; its iteration order is the list order (real
-      Python iterates in hash order, which is why results are COMPARED AS SETS).  A Python
-      [list] is a [list].
+    - A Python [set] is a duplicate-free [list A].  Real Python iterates over a set in an order
+      that depends on hashes and on the history of the object, so the order in which a set is
+      ITERATED is not the list order but [py_order X k l], where [py_order : pyorder] is an
+      arbitrary function (a section variable of the generated file) and [k] numbers the place in
+      the program text where the iteration happens.  The same oracle orders the collections that
+      the library builds from sets and dictionaries ([get_children], [get_parents],
+      [get_neighbors], [successors], [predecessors], [get_all_causal_paths]).  The theorems of
+      IdentifyGenProofs.v hold for EVERY oracle that returns a permutation of its argument
+      ([pyorder_ok]): the computed sets do not depend on any iteration order.  Results are
+      compared as sets.  A Python [list] is a [list] (its order is definite).
     - A Python object that is mutated in place ([s.add(x)], [g.remove_edge(u, v)],
       [l.append(x)]) is threaded through as state: the statement rebinds the variable that
       holds it.  A function that mutates one of its parameters returns the final value of that
@@ -44,7 +52,10 @@
        list() , []                   |-> py_list_empty                ([])
        set(xs)                       |-> py_set_of eqb xs             (duplicates dropped)
        {a, b}                        |-> py_set_of eqb [a; b]
-       list(xs)                      |-> py_list xs                   (a snapshot: xs itself)
+       list(xs)   (xs a list / view) |-> py_list xs                   (a snapshot: xs itself)
+       list(s)    (s a set)          |-> py_list (py_iter_set py_order k s)
+       for x in s (s a set), comprehension over a set, enumerate(s), combinations(s, 2)
+                                     |-> the set is replaced by py_iter_set py_order k s
        s.copy()           (s a set)  |-> py_copy s                    (a snapshot: s itself)
        s.add(x)                      |-> s := py_set_add eqb s x
        s.remove(x)                   |-> s := py_set_remove eqb s x   (Exc PyKeyError if absent)
@@ -77,10 +88,10 @@
        Node.identifier_from(n)       |-> n
        graph.get_ancestors(n)        |-> py_cg_get_ancestors eqb g n  (anc: STRICT ancestors)
        graph.get_descendants(n)      |-> py_cg_get_descendants eqb g n (desc: STRICT descendants)
-       graph.get_children(n)         |-> py_cg_get_children eqb g n   (a fresh list, no duplicates)
-       graph.get_parents(n)          |-> py_cg_get_parents eqb g n
-       graph.get_neighbors(n)        |-> py_cg_get_neighbors eqb g n  (parents and children, n excluded)
-       graph.get_all_causal_paths(s, d) |-> py_cg_get_all_causal_paths eqb g s d
+       graph.get_children(n)         |-> py_cg_get_children eqb py_order k g n  (a fresh list, no duplicates)
+       graph.get_parents(n)          |-> py_cg_get_parents eqb py_order k g n
+       graph.get_neighbors(n)        |-> py_cg_get_neighbors eqb py_order k g n  (parents and children, n excluded)
+       graph.get_all_causal_paths(s, d) |-> py_cg_get_all_causal_paths eqb py_order k g s d
                                           (Identify.id_all_paths: all simple directed paths as
                                            node lists, [] when s = d; a fully built LIST, so
                                            [enumerate] over it cannot observe later mutations)
@@ -90,8 +101,8 @@
                                           (Exc PyEdgeDoesNotExistError if absent)
        graph.to_networkx()           |-> py_cg_to_networkx g          (independent DiGraph: g itself)
        -- networkx.DiGraph --------------------------------------------------------------------
-       G.successors(n)               |-> py_nx_successors eqb G n     (LIVE view: the translator insists
-       G.predecessors(n)             |-> py_nx_predecessors eqb G n    on a list(...) snapshot when the
+       G.successors(n)               |-> py_nx_successors eqb py_order k G n  (LIVE view: the translator insists
+       G.predecessors(n)             |-> py_nx_predecessors eqb py_order k G n  on a list(...) snapshot when the
                                                                         loop body mutates anything)
        G.remove_edge(u, v)           |-> G := py_nx_remove_edge eqb G u v (Exc PyNetworkXError if absent)
        G.add_edge(u, v)              |-> G := py_nx_add_edge eqb G u v  (no-op when the edge exists)
@@ -101,7 +112,7 @@
        -- CausalGraph with arbitrary edge types ([identify_colliders] only; [mgraph A]) ---------
        graph.get_node_names()        |-> py_mcg_get_node_names g      (the nodes, insertion order)
        graph.get_bidirected_edges()  |-> py_mcg_get_bidirected_edges g (the edges of type <>)
-       graph.get_neighbors(n)        |-> py_mcg_get_neighbors eqb g n (Markov.mg_neighbors)
+       graph.get_neighbors(n)        |-> py_mcg_get_neighbors eqb py_order k g n (Markov.mg_neighbors)
        graph.edge_exists(a, b)       |-> py_mcg_edge_exists eqb g a b (an edge STORED as (a, b), any type)
        graph.get_edge(a, b)          |-> py_mcg_get_edge eqb g a b    (Exc PyEdgeDoesNotExistError if absent)
        e.source.identifier , e.destination.identifier , e.edge_type
@@ -169,6 +180,17 @@ Fixpoint py_for {X S R Res : Type} (inj : pyout R -> Res) (xs : list X) (s : S)
       end
   end.
 
+(** * Iteration order *)
+
+(** [ord X k l]: the order in which the collection [l] is iterated at the observation site [k]. *)
+Definition pyorder : Type := forall X : Type, nat -> list X -> list X.
+Definition pyorder_ok (ord : pyorder) : Prop :=
+  forall (X : Type) (k : nat) (l : list X), Permutation (ord X k l) l.
+(** two concrete oracles: the list order, and the reverse of the list order at odd sites *)
+Definition pyorder_id : pyorder := fun _ _ l => l.
+Definition pyorder_alt : pyorder := fun _ k l => if Nat.odd k then rev l else l.
+Definition py_iter_set (ord : pyorder) (k : nat) {X : Type} (s : list X) : list X := ord X k s.
+
 (** * Builtins *)
 
 Definition py_list_empty {X : Type} : list X := [].
@@ -204,13 +226,16 @@ Section PyRt.
   Definition py_cg_node_exists (g : digraph A) (n : A) : bool := memb eqb n (verts g).
   Definition py_cg_get_ancestors (g : digraph A) (n : A) : list A := anc eqb g n.
   Definition py_cg_get_descendants (g : digraph A) (n : A) : list A := desc eqb g n.
-  Definition py_cg_get_children (g : digraph A) (n : A) : list A := union eqb (children eqb g n) [].
-  Definition py_cg_get_parents (g : digraph A) (n : A) : list A := union eqb (parents eqb g n) [].
-  Definition py_cg_get_neighbors (g : digraph A) (n : A) : list A :=
-    filter (fun m => negb (eqb m n)) (union eqb (children eqb g n) (union eqb (parents eqb g n) [])).
-  Definition py_cg_get_all_causal_paths (g : digraph A) (s d : A) : pyout (list (list A)) :=
+  Definition py_cg_get_children (ord : pyorder) (k : nat) (g : digraph A) (n : A) : list A :=
+    ord A k (union eqb (children eqb g n) []).
+  Definition py_cg_get_parents (ord : pyorder) (k : nat) (g : digraph A) (n : A) : list A :=
+    ord A k (union eqb (parents eqb g n) []).
+  Definition py_cg_get_neighbors (ord : pyorder) (k : nat) (g : digraph A) (n : A) : list A :=
+    ord A k (filter (fun m => negb (eqb m n)) (union eqb (children eqb g n) (union eqb (parents eqb g n) []))).
+  Definition py_cg_get_all_causal_paths (ord : pyorder) (k : nat) (g : digraph A) (s d : A)
+    : pyout (list (list A)) :=
     match id_all_paths eqb g s d with
-    | Some ps => Ret ps
+    | Some ps => Ret (ord (list A) k ps)
     | None => Fuel
     end.
   Definition py_cg_copy (g : digraph A) : digraph A := g.
@@ -224,7 +249,8 @@ Section PyRt.
   Definition py_mcg_get_node_names (g : mgraph) : list A := mnodes g.
   Definition py_mcg_get_bidirected_edges (g : mgraph) : list (medge A) :=
     filter (fun e => etype_eqb (mty e) Bi) (medges g).
-  Definition py_mcg_get_neighbors (g : mgraph) (n : A) : list A := mg_neighbors eqb (medges g) n.
+  Definition py_mcg_get_neighbors (ord : pyorder) (k : nat) (g : mgraph) (n : A) : list A :=
+    ord A k (mg_neighbors eqb (medges g) n).
   Definition py_mcg_edge_exists (g : mgraph) (a b : A) : bool := mg_edge_exists eqb (medges g) a b.
   Definition py_mcg_get_edge (g : mgraph) (a b : A) : pyout (medge A) :=
     match mg_get_edge eqb (medges g) a b with
@@ -239,8 +265,10 @@ Section PyRt.
   Definition py_combinations2 (s : list A) : list (A * A) := pairs2 s.
 
   (** * networkx.DiGraph *)
-  Definition py_nx_successors (g : digraph A) (n : A) : list A := union eqb (children eqb g n) [].
-  Definition py_nx_predecessors (g : digraph A) (n : A) : list A := union eqb (parents eqb g n) [].
+  Definition py_nx_successors (ord : pyorder) (k : nat) (g : digraph A) (n : A) : list A :=
+    ord A k (union eqb (children eqb g n) []).
+  Definition py_nx_predecessors (ord : pyorder) (k : nat) (g : digraph A) (n : A) : list A :=
+    ord A k (union eqb (parents eqb g n) []).
   Definition py_nx_remove_edge (g : digraph A) (u v : A) : pyout (digraph A) :=
     if has_arc eqb g u v then Ret (py_del_arc g u v) else Exc PyNetworkXError.
   Definition py_nx_add_edge (g : digraph A) (u v : A) : digraph A :=
@@ -255,6 +283,7 @@ End PyRt.
     are Python sets are compared after sorting). *)
 Module PyRtExamples.
   Definition E := Nat.eqb.
+  Definition O := pyorder_id.
   Definition g0 : digraph nat := {| verts := [0; 1; 2; 3]; arcs := [(0, 1); (0, 2); (1, 2); (2, 3)] |}.
   Definition sorted (l : list nat) : list nat := isort Nat.leb l.
   Definition garcs (o : pyout (digraph nat)) : pyout (list (nat * nat)) :=
@@ -277,6 +306,12 @@ Module PyRtExamples.
     py_set_intersection_star E [[1; 2; 3]; [2; 3]; [3; 4]] = Ret [3] /\
     py_set_intersection_star E [] = Exc PyTypeError.
   Proof. vm_compute. split; reflexivity. Qed.
+  (* [x + 1 for x in [1, 2]] = [2, 3]; 2 in {1, 2}; 3 not in {1, 2}; len([7, 8]) = 2;
+     (5 if 1 is not None else 6) = 5  with None = 9 *)
+  Example ex_misc :
+    map (fun x => x + 1) [1; 2] = [2; 3] /\ memb E 2 [1; 2] = true /\ negb (memb E 3 [1; 2]) = true /\
+    length [7; 8] = 2 /\ (if negb (E 1 9) then 5 else 6) = 5.
+  Proof. vm_compute. repeat split; reflexivity. Qed.
   (* list(enumerate(['x','y'])) = [(0,'x'), (1,'y')] *)
   Example ex_enumerate : py_enumerate [7; 9] = [(0, 7); (1, 9)].
   Proof. vm_compute. reflexivity. Qed.
@@ -296,19 +331,19 @@ Module PyRtExamples.
   Proof. vm_compute. repeat split; reflexivity. Qed.
   (* g.get_all_causal_paths('a','d') = [['a','b','c','d'], ['a','c','d']]; ('a','a') -> []; ('d','a') -> [] *)
   Example ex_paths :
-    py_cg_get_all_causal_paths E g0 0 3 = Ret [[0; 1; 2; 3]; [0; 2; 3]] /\
-    py_cg_get_all_causal_paths E g0 0 0 = Ret [] /\ py_cg_get_all_causal_paths E g0 3 0 = Ret [].
+    py_cg_get_all_causal_paths E O 0 g0 0 3 = Ret [[0; 1; 2; 3]; [0; 2; 3]] /\
+    py_cg_get_all_causal_paths E O 0 g0 0 0 = Ret [] /\ py_cg_get_all_causal_paths E O 0 g0 3 0 = Ret [].
   Proof. vm_compute. repeat split; reflexivity. Qed.
   (* g.get_children('a') = ['c','b'] (a list built from a set: order unspecified) *)
-  Example ex_children : sorted (py_cg_get_children E g0 0) = [1; 2] /\ sorted (py_cg_get_parents E g0 2) = [0; 1].
+  Example ex_children : sorted (py_cg_get_children E O 0 g0 0) = [1; 2] /\ sorted (py_cg_get_parents E O 0 g0 2) = [0; 1].
   Proof. vm_compute. split; reflexivity. Qed.
   (* sorted(g.get_neighbors('c')) = ['a','b','d'] *)
-  Example ex_neighbors : sorted (py_cg_get_neighbors E g0 2) = [0; 1; 3].
+  Example ex_neighbors : sorted (py_cg_get_neighbors E O 0 g0 2) = [0; 1; 3].
   Proof. vm_compute. reflexivity. Qed.
   (* {p for c in ['b','c'] for p in g.get_parents(c) if p != 'a'} = {'b'};  {1,2} | {2,3} = {1,2,3} *)
   Example ex_setcomp :
     py_set_of E (flat_map (fun c => flat_map (fun p => if negb (E p 0) then [p] else [])
-                                      (py_cg_get_parents E g0 c)) [1; 2]) = [1] /\
+                                      (py_cg_get_parents E O 0 g0 c)) [1; 2]) = [1] /\
     sorted (py_union E [1; 2] [2; 3]) = [1; 2; 3].
   Proof. vm_compute. split; reflexivity. Qed.
   (* c = g.copy(); c.remove_edge(source='a', destination='b'): c.get_children('a') = ['c'] and g is unchanged;
@@ -319,7 +354,7 @@ Module PyRtExamples.
   Proof. vm_compute. split; reflexivity. Qed.
   (* n = g.to_networkx(): list(n.successors('a')) = ['b','c']; list(n.predecessors('c')) = ['a','b'] *)
   Example ex_nx_views :
-    py_nx_successors E (py_cg_to_networkx g0) 0 = [1; 2] /\ py_nx_predecessors E (py_cg_to_networkx g0) 2 = [0; 1].
+    py_nx_successors E O 0 (py_cg_to_networkx g0) 0 = [1; 2] /\ py_nx_predecessors E O 0 (py_cg_to_networkx g0) 2 = [0; 1].
   Proof. vm_compute. split; reflexivity. Qed.
   (* n.remove_edge('a','b') twice: the second call raises NetworkXError;
      n.add_edge('a','b') twice after the removal: successors of a are {'b','c'}, 4 edges *)
@@ -327,7 +362,7 @@ Module PyRtExamples.
     py_bind py_top (py_nx_remove_edge E g0 0 1) (fun n => py_nx_remove_edge E n 0 1) = Exc PyNetworkXError /\
     py_bind py_top (py_nx_remove_edge E g0 0 1)
       (fun n => Ret (length (arcs (py_nx_add_edge E (py_nx_add_edge E n 0 1) 0 1)),
-                     sorted (py_nx_successors E (py_nx_add_edge E (py_nx_add_edge E n 0 1) 0 1) 0)))
+                     sorted (py_nx_successors E O 0 (py_nx_add_edge E (py_nx_add_edge E n 0 1) 0 1) 0)))
     = Ret (4, [1; 2]).
   Proof. vm_compute. split; reflexivity. Qed.
 
@@ -341,7 +376,7 @@ Module PyRtExamples.
     py_mcg_get_node_names m0 = [0; 1; 2; 3; 4] /\
     map (fun e => (py_edge_source_identifier e, py_edge_destination_identifier e, py_edge_edge_type e))
         (py_mcg_get_bidirected_edges m0) = [(2, 3, Bi)] /\
-    map (fun n => sorted (py_mcg_get_neighbors E m0 n)) [2; 3; 4] = [[0; 1; 3]; [2; 4]; [0; 3]].
+    map (fun n => sorted (py_mcg_get_neighbors E O 0 m0 n)) [2; 3; 4] = [[0; 1; 3]; [2; 4]; [0; 3]].
   Proof. vm_compute. repeat split; reflexivity. Qed.
   (* edge_exists: (a,c) True, (c,a) False, (c,d) True, (d,c) False, (d,e) True, (e,d) False *)
   Example ex_mcg_edge_exists :
@@ -367,6 +402,14 @@ Module PyRtExamples.
   Example ex_copy_snapshot :
     (let s := [1; 2] in let t := py_copy s in (s, py_set_remove E t 1)) = ([1; 2], Ret [2]).
   Proof. vm_compute. reflexivity. Qed.
+
+  (* the iteration-order oracle: the list order, or reversed at the odd observation sites *)
+  Example ex_order :
+    py_iter_set pyorder_id 1 [1; 2; 3] = [1; 2; 3] /\ py_iter_set pyorder_alt 1 [1; 2; 3] = [3; 2; 1] /\
+    py_iter_set pyorder_alt 2 [1; 2; 3] = [1; 2; 3] /\
+    py_nx_successors E pyorder_alt 1 g0 0 = [2; 1] /\
+    py_cg_get_all_causal_paths E pyorder_alt 1 g0 0 3 = Ret [[0; 2; 3]; [0; 1; 2; 3]].
+  Proof. vm_compute. repeat split; reflexivity. Qed.
 
   (* for-loop semantics: break keeps the state, return/raise leaves the loop and the function *)
   Example ex_for_break :
